@@ -242,6 +242,8 @@ func (c *inlCtx) collectClosures() {
 	for o := range lit {
 		calledOnly[o] = true
 	}
+	argUses := map[types.Object][]*ast.Ident{} // the closure variable handed to a call as an argument
+	otherUses := map[types.Object]int{}
 	var parents []ast.Node
 	ast.Inspect(c.caller.Body, func(n ast.Node) bool {
 		if n == nil {
@@ -265,6 +267,21 @@ func (c *inlCtx) collectClosures() {
 				}
 				if !isFun {
 					calledOnly[o] = false
+					isArg := false
+					if len(parents) > 0 {
+						if call, isC := parents[len(parents)-1].(*ast.CallExpr); isC {
+							for _, a := range call.Args {
+								if a == ast.Expr(id) {
+									isArg = true
+								}
+							}
+						}
+					}
+					if isArg {
+						argUses[o] = append(argUses[o], id)
+					} else {
+						otherUses[o]++
+					}
 				}
 			}
 		}
@@ -274,6 +291,50 @@ func (c *inlCtx) collectClosures() {
 	for o, fl := range lit {
 		if assigns[o] == 1 && calledOnly[o] && !c.baseline[c.callerKey+"$"+o.Name()] {
 			c.closures[o] = fl
+		}
+	}
+	// a closure variable that is also handed to calls as an argument (`xs.Range(visit)`): the literal is written at
+	// those places first - evaluating the literal there yields the same function, provided every name it uses means
+	// the same there; its direct calls are inlined in the next round
+	for o, fl := range lit {
+		if assigns[o] != 1 || calledOnly[o] || otherUses[o] > 0 || len(argUses[o]) == 0 || c.baseline[c.callerKey+"$"+o.Name()] {
+			continue
+		}
+		selfRef := false
+		ast.Inspect(fl, func(n ast.Node) bool {
+			if id, isId := n.(*ast.Ident); isId && info.Uses[id] == o {
+				selfRef = true
+			}
+			return true
+		})
+		if selfRef {
+			continue
+		}
+		for _, use := range argUses[o] {
+			useScope := c.pk.Types.Scope().Innermost(use.Pos())
+			okNames := useScope != nil
+			ast.Inspect(fl, func(n ast.Node) bool {
+				id, isId := n.(*ast.Ident)
+				if !isId || !okNames {
+					return true
+				}
+				fo := info.Uses[id]
+				if fo == nil || (fo.Pos() >= fl.Pos() && fo.Pos() < fl.End()) {
+					return true
+				}
+				if _, isPN := fo.(*types.PkgName); !isPN && fo.Parent() == nil {
+					return true // fields and methods
+				}
+				if _, at := useScope.LookupParent(id.Name, use.Pos()); at != fo {
+					okNames = false
+				}
+				return true
+			})
+			if !okNames {
+				continue
+			}
+			c.edits = append(c.edits, inlineEdit{start: c.tf.Offset(use.Pos()), end: c.tf.Offset(use.End()), text: c.text(fl)})
+			c.inlined = append(c.inlined, c.callerKey+"$"+o.Name()+" (as a value)")
 		}
 	}
 }
